@@ -45,8 +45,11 @@ def write_fileset(prefix, codes, rng, positions, alleles, samples):
             data.append(byte)
     pathlib.Path(str(prefix) + ".bed").write_bytes(bytes(data))
     with open(str(prefix) + ".bim", "w") as f:
+        chrom = 1
         for v in range(m):
-            f.write(f"1\tv{v}\t0\t{positions[v]}\t{alleles[v][0]}\t{alleles[v][1]}\n")
+            if v and positions[v] < positions[v - 1]:
+                chrom += 1                      # coordinates start again: next chromosome
+            f.write(f"{chrom}\tv{v}\t0\t{positions[v]}\t{alleles[v][0]}\t{alleles[v][1]}\n")
     with open(str(prefix) + ".fam", "w") as f:
         for s in samples:
             f.write(f"fam {s} 0 0 0 -9\n")
@@ -57,7 +60,13 @@ def gen_fileset(rng, big=False):
     m = rng.choice([1, 2, 3, 5, 8, 13, 21, 40] + ([120] if big else []))
     weights = rng.choice([[1, 1, 1, 1], [6, 1, 2, 1], [1, 0, 0, 0], [0, 1, 0, 0], [1, 3, 3, 1]])
     codes = [[rng.choices([0, 1, 2, 3], weights)[0] for _ in range(n)] for _ in range(m)]
-    pos = sorted(rng.randrange(1, 10**6) for _ in range(m))
+    # one to three chromosomes, each sorted; coordinate ranges differ (a late chromosome may be much shorter: chrM)
+    cuts = sorted(rng.sample(range(1, m), min(m - 1, rng.choice([0, 0, 1, 2])))) if m > 1 else []
+    pos, a = [], 0
+    for b in cuts + [m]:
+        hi = rng.choice([100, 30_000, 10**6, 2**31 - 2])
+        pos += sorted(rng.randrange(1, hi) for _ in range(b - a))
+        a = b
     alleles = [rng.sample(["A", "C", "G", "T", "AT", "GCC"], 2) for _ in range(m)]
     samples = [f"s{j}" for j in range(n)]
     return codes, pos, alleles, samples
